@@ -58,7 +58,8 @@ Proof.
   repeat split.
   exists [ex_ls (bs "sts=port=6697 multi-prefix")], ex_t, ex_star, (bs "sts"), [].
   eexists. eexists. exists 6697%Z.
-  split; [reflexivity|]. split; [vm_compute; reflexivity|]. split; [vm_compute; left; reflexivity|].
+  split; [reflexivity|]. split; [vm_compute; reflexivity|].
+  split; [split; [vm_compute; left; reflexivity|vm_compute; intros [H|[]]; discriminate H]|].
   split; [|vm_compute; reflexivity].
   exists (bs "6697"). split; [vm_compute; reflexivity|]. split; [vm_compute; reflexivity|]. lia.
 Qed.
